@@ -221,7 +221,7 @@ class Gen:
             op = self.pick(["&&", "||"])
             return f"({self.expr(scope, 'B', depth + 1)} {op} {self.expr(scope, 'B', depth + 1)})"
         if r < 0.7:
-            return f"(!{self.expr(scope, self.pick(['B', 'I', 'S', 'A']), depth + 1)})"
+            return f"(!{self.expr(scope, self.pick(['B', 'I', 'S', 'A', 'F']), depth + 1)})"
         if r < 0.8:
             op = self.pick(["<", "<=", ">", ">=", "==", "!="])
             return f"({self.expr(scope, 'S', depth + 1)} {op} {self.expr(scope, 'S', depth + 1)})"
@@ -230,6 +230,19 @@ class Gen:
             if ms:
                 return f"contains({self.pick(ms)}, {self.rng.randint(0, 4)})"
         return self.pick(["true", "false"])
+
+    FLOAT_LITS = ["0.0", "-0.0", "1.5", "2.0", "1e-20", "5e-324", "2.5e-16", "1e308", "0.1", "100."]
+
+    def expr_F(self, scope, depth):
+        """doubles, incl. subnormals and magnitudes below the machine epsilon (truthy!), never NaN"""
+        if depth >= self.max_depth or self.chance(0.6):
+            return self.pick(self.FLOAT_LITS)
+        r = self.rng.random()
+        if r < 0.4:
+            return f"({self.expr(scope, 'F', depth + 1)} {self.pick(['+', '-', '*'])} {self.pick(self.FLOAT_LITS)})"
+        if r < 0.7:
+            return f"({self.rng.randint(0, 9)} * {self.pick(self.FLOAT_LITS)})"
+        return f"({self.pick(self.FLOAT_LITS)} / {self.pick(['2.0', '4', '1e10'])})"
 
     def expr_S(self, scope, depth):
         vs = self.vars_of(scope, "S")
@@ -267,7 +280,7 @@ class Gen:
         return "map {" + pairs + "}"
 
     def obs_expr(self, scope, depth=1):
-        ty = self.pick(["I", "I", "I", "B", "S", "A"])
+        ty = self.pick(["I", "I", "I", "I", "B", "S", "A", "F"])
         return self.expr(scope, ty, depth)
 
     # ------------------------------------------------------------ statements
@@ -348,7 +361,7 @@ class Gen:
         self.emit(f"{v} = {self.expr(scope, ty, 1)};")
 
     def stmt_if(self, scope, budget, in_loop):
-        cty = self.pick(["B", "B", "B", "I", "S", "A"])
+        cty = self.pick(["B", "B", "B", "I", "S", "A", "F"])
         self.emit(f"if {self.expr(scope, cty, 1)} {{")
         self.block(scope, budget, in_loop)
         r = self.rng.random()
